@@ -154,5 +154,6 @@ LEVEL_TEXT = ('Deductive proof of absence of run-time errors in the verified fun
     'unreachability of every utils.fatal call other than the documented one, plus the termination variant of the '
     'scanner loop. The obligations follow from the invariants (non-empty argument buffers, non-empty mandatory '
     'arguments, MacInv argument references, non-empty label stack). Termination of the expander is NOT decided.')
-LEVEL_NOTE = 'Partial correctness: no claim about hangs of the macro expander, recursion depth or memory. ' + cm.TRUSTED_CORE[1]
+LEVEL_NOTE = ('Partial correctness: no claim about hangs of the macro expander, recursion depth or memory. ' + cm.TRUSTED_CORE[1]
+    + ' Bounded stand-ins in the quick tier: termination of key-value option lists, package / class names never raise (module loading is an assumed contract); reported as bounded, not counted as proved.')
 TECHNIQUE = 'contract-based deductive verification: run-time-error obligations generated at every partial operation of the real AST, z3'
